@@ -177,6 +177,13 @@ fn exec_seq6(f: &[&str]) -> String {
                         "err"
                     }
                 }
+                Op6::Plain(OpSpec::AppendDiskFull(r, k)) => {
+                    if crate::c05::append_disk_full(&env, app.as_ref().unwrap(), r, *k).is_ok() {
+                        "ok"
+                    } else {
+                        "err"
+                    }
+                }
                 Op6::Plain(OpSpec::AppendLate(r)) => {
                     env.late_fail.store(true, Ordering::SeqCst);
                     let res = r.append_to(app.as_ref().unwrap());
